@@ -9053,7 +9053,7 @@ class SVG(Group):
 
         # Semiparse the nodes. All nodes are given in iterparse ordering with start-ns, start, and end.
         # Use values are inlined.
-        def semiparse(nodes):
+        def semiparse(nodes, active=()):
             for elem, children in nodes:
                 if children is None:
                     yield None, "start-ns", elem
@@ -9062,7 +9062,9 @@ class SVG(Group):
                 if tag.startswith("{http://www.w3.org/2000/svg"):
                     tag = tag[28:]  # Removing namespace. http://www.w3.org/2000/svg:
                 yield tag, "start", elem
-                yield from semiparse(children)
+                # Elements being expanded further up (ancestors and referencing uses) cannot be referenced again.
+                inside = active + (elem,)
+                yield from semiparse(children, inside)
                 if SVG_TAG_USE == tag:
                     url = None
                     semiattr = elem.attrib
@@ -9072,9 +9074,11 @@ class SVG(Group):
                         url = semiattr[SVG_HREF]
                     if url is not None:
                         try:
-                            yield from semiparse([event_defs[url[1:]]])
+                            node = event_defs[url[1:]]
                         except KeyError:
-                            pass  # Failed to find link.
+                            node = None  # Failed to find link.
+                        if node is not None and not any(node[0] is e for e in inside):
+                            yield from semiparse([node], inside)
                 yield tag, "end", elem
 
         yield from semiparse(nodes)
